@@ -61,6 +61,9 @@ contract("gherkin.stream.gherkin_events.GherkinEvents.enum",
                  result == expected_ok(self.options, source_event,
                                        ghost_val("doc", "GherkinDocument", source_event["source"]["data"]),
                                        source_event["source"]["uri"])), serves=["C17", "C01"]),
+             # the parser, compiler (and with them the id generator they share) stay the stream's own: ids keep counting
+             clause("same-components", lambda self: same_ref(self.parser) and same_ref(self.compiler)
+                    and same_ref(self.options), serves=["C11", "C15", "C17"]),
              clause("rejected", lambda source_event, result: implies(
                  ghost("rejected", source_event["source"]["data"]),
                  result == [perr(e, source_event["source"]["uri"]) for e in ghost_val(
